@@ -163,7 +163,7 @@ def main(argv=None):
     obs_count = Counter()
     inconclusive = []
     samples = []
-    mech = defaultdict(lambda: [0, 0])
+    mech = defaultdict(lambda: [set(), 0])
     extra = {}
     for r in results:
         recs = read_records(r["out"])
@@ -187,9 +187,9 @@ def main(argv=None):
                 if len(samples) < 12:
                     samples.append(rec["s"])
             elif t == "mech":
-                for fn, (hit, tot) in rec["m"].items():
-                    mech[fn][0] = max(mech[fn][0], hit)
-                    mech[fn][1] = max(mech[fn][1], tot)
+                for fn, d in rec["m"].items():
+                    mech[fn][0] |= set(d["hit"])
+                    mech[fn][1] = max(mech[fn][1], d["total"])
             elif t == "extra":
                 for k, v in rec["x"].items():
                     if isinstance(v, (int, float)) and isinstance(extra.get(k), (int, float)):
@@ -258,7 +258,8 @@ def main(argv=None):
         events={k[3:]: v for k, v in sorted(counters.items()) if k.startswith("ev.")},
         abstract_states={k[3:]: v for k, v in sorted(counters.items()) if k.startswith("st.")},
         other_counters={k: v for k, v in sorted(counters.items()) if not k.startswith(("mon.", "ev.", "st.")) and k != "evaluations"},
-        mechanism_lines_observed={fn: f"{h}/{t}" for fn, (h, t) in sorted(mech.items())},
+        mechanism_lines_observed={fn: f"{len(h)}/{t}" for fn, (h, t) in sorted(mech.items())},
+        anchored_functions_never_entered=sorted(fn for fn, (h, t) in mech.items() if t and not h),
         gates=gates,
         observations_not_judged={k: {"count": obs_count[k], "examples": observations[k]} for k in sorted(obs_count)},
         known_findings_hit={k: known_hit[k] for k in sorted(known_hit)},
